@@ -60,7 +60,89 @@ REAL_REPLAYS = {"quick": 3, "thorough": 8}
 
 
 def plan(tier, seed):
-    return [{"config": c, "i": i} for i, c in enumerate(rc.configs(tier))]
+    return [{"config": c, "i": i} for i, c in enumerate(rc.configs(tier))] + [{"real_inputs": True}]
+
+
+def real_input_runs(res, scratch, tier):
+    """Input dimension of the property on real processes under the OS scheduler's own schedule: files that mix ordinary
+    reads with reads of more than 60,000 bases (passed through by the workers) under several batch sizes and core
+    counts, and one run with very many tiny batches under a lowered open-file limit (every worker costs descriptors)."""
+    import gc
+    import resource
+    from gaftools.cli import realign as R
+    from mc import gen
+
+    d = os.path.join(scratch, "realin")
+    os.makedirs(d, exist_ok=True)
+    fw.write_text(os.path.join(d, "g.gfa"), rc.GFA_TEXT)
+    long_seq = gen._seq(60_010, 3)
+
+    def build(pattern):
+        fa, gaf = [f">big\n{long_seq}\n"], []
+        for i, kind in enumerate(pattern):
+            if kind == "L":
+                gaf.append(f"big\t60010\t0\t60001\t+\t>s1>s2\t18\t0\t18\t18\t60001\t{i}\ttp:A:P\tcg:Z:60001=\trn:i:{i}\n")
+            else:
+                k = i % 6
+                fa.append(f">r{i}\n{rc.PATHSEQ[k:k + 8]}\n")
+                gaf.append(f"r{i}\t8\t0\t8\t+\t>s1>s2\t18\t{k}\t{k + 8}\t8\t8\t60\ttp:A:P\tcg:Z:8=\trn:i:{i}\n")
+        fw.write_text(os.path.join(d, "r.fa"), "".join(fa))
+        fai = os.path.join(d, "r.fa.fai")
+        if os.path.exists(fai):
+            os.remove(fai)
+        fw.write_text(os.path.join(d, "a.gaf"), "".join(gaf))
+
+    def run(cores, batch):
+        outp = os.path.join(d, "out.gaf")
+        if os.path.exists(outp):
+            os.remove(outp)
+        if batch is None:
+            os.environ.pop("GAFTOOLS_VERIF_BATCH", None)
+        else:
+            os.environ["GAFTOOLS_VERIF_BATCH"] = str(batch)
+        try:
+            o = fw.guarded(R.run_realign, gaf=os.path.join(d, "a.gaf"), graph=os.path.join(d, "g.gfa"), fasta=os.path.join(d, "r.fa"), output=outp, cores=cores, _trigger_s=900)
+        finally:
+            os.environ.pop("GAFTOOLS_VERIF_BATCH", None)
+        gc.collect()
+        return o, (open(outp).read() if os.path.exists(outp) else "")
+
+    patterns = ["ssLss", "Lsss", "sssL", "sLsLs", "ssssssLssssss"]
+    if tier == "thorough":
+        patterns += ["LL", "sLLs", "s" * 7 + "L" + "s" * 7 + "L" + "s" * 3]
+    for pat in patterns:
+        build(pat)
+        ref_o, ref = run(1, None)
+        order = [l.split("\t")[-1] for l in ref.split("\n") if l]
+        case = {"real_inputs": pat, "cores": 1, "batch": None}
+        if ref_o.kind != "ok" or order != [f"rn:i:{i}" for i in range(len(pat))]:
+            res.fail("C11/real-run:single-core-order", f"records {pat} (L = more than 60,000 read bases) on one core, default batch: {ref_o.brief()}, record order {order}", case)
+            continue
+        for cores in (1, 2, 3):
+            for batch in (1, 2, 3, 4):
+                o, text = run(cores, batch)
+                res.evaluations += 1
+                res.nt(fw.h64(["realin", pat, cores, batch]))
+                res.count("real_process_runs_on_mixed_inputs")
+                if o.kind != "ok" or text != ref:
+                    got = [l.split("\t")[-1] for l in text.split("\n") if l]
+                    res.fail("C11/real-run:differs-from-single-core", f"records {pat}, --cores {cores}, {batch} record(s) per worker: {o.brief()}; output order {got} differs from the single-core file",
+                             {"real_inputs": pat, "cores": cores, "batch": batch})
+    # many workers under a tight descriptor limit
+    n = 300 if tier == "quick" else 1500
+    build("s" * n)
+    soft, hard = resource.getrlimit(resource.RLIMIT_NOFILE)
+    resource.setrlimit(resource.RLIMIT_NOFILE, (128, hard))
+    try:
+        o, text = run(2, 1)
+    finally:
+        resource.setrlimit(resource.RLIMIT_NOFILE, (soft, hard))
+    res.evaluations += 1
+    res.count("worker_processes_under_descriptor_limit", n)
+    names = [l.split("\t")[0] for l in text.split("\n") if l]
+    if o.kind != "ok" or names != [f"r{i}" for i in range(n)]:
+        res.fail("C11/real-run:many-workers", f"{n} one-record workers with at most 128 open files: {o.brief()}, {len(names)} of {n} records written", {"real_inputs": "s" * n, "cores": 2, "batch": 1, "nofile": 128})
+    res.sample({"real_process_inputs": patterns, "batches": [1, 2, 3, 4], "cores": [1, 2, 3]})
 
 
 def judge(x, expected):
@@ -173,6 +255,9 @@ def real_replays(res, c, cfg, picks, fault, tier, limit):
 
 def run_shard(spec, tier, scratch):
     res = fw.ShardResult()
+    if spec.get("real_inputs"):
+        real_input_runs(res, scratch, tier)
+        return res
     c = spec["config"]
     r = explore_config(res, c, scratch, tier)
     if r is not None and not c.get("pipe"):
@@ -222,6 +307,9 @@ def replay(case, scratch):
     from mc import vmp
 
     res = fw.ShardResult()
+    if "real_inputs" in case:
+        real_input_runs(res, scratch, "quick" if len(case["real_inputs"]) < 1000 else "thorough")
+        return [f for f in res.failures if f["case"] == case] or res.failures
     c = case["config"]
     cfg = rc.cfg_for(scratch, c)
     expected, ref = rc.reference_output(cfg, c["nrec"])
